@@ -414,6 +414,22 @@ func run(t *testing.T, tape *simrt.Tape) *hx.Outcome {
 	case "externaltoc-lossless":
 		cf, finalize = externaltocconvert.LayerConvertLossLessFunc(externaltocconvert.LayerConvertLossLessConfig{CompressionLevel: level, ChunkSize: cs, MinChunkSize: minCS})
 	}
+	// the retry of an interrupted conversion may come from a converter with other options (another compression
+	// level and chunk size: the image is converted again with a changed command line); the left-over ingest of the
+	// first attempt must not leak into the new blob (own tape stream: older tapes replay unchanged)
+	cfRetry := cf
+	if (mode == "estargz" || mode == "estargz-perlayer") && tape.Draw("cfg.retryopts", 2) == 0 {
+		lvl2 := 9
+		if level == 9 {
+			lvl2 = 1
+		}
+		o2 := []estargz.Option{estargz.WithChunkSize(2*cs + 1), estargz.WithCompressionLevel(lvl2)}
+		if mode == "estargz" {
+			cfRetry = estargzconvert.LayerConvertFunc(o2...)
+		} else {
+			cfRetry = estargzconvert.LayerConvertWithLayerAndCommonOptsFunc(perLayer, o2...)
+		}
+	}
 	lossless := mode == "externaltoc-lossless"
 	external := strings.HasPrefix(mode, "externaltoc")
 	zstdMode := strings.HasPrefix(mode, "zstdchunked")
@@ -472,7 +488,7 @@ func run(t *testing.T, tape *simrt.Tape) *hx.Outcome {
 			}
 			retried++
 			ts = append(ts, s.Go(fmt.Sprintf("retry%d", i), func(t *simrt.Task) {
-				results[i], errs[i] = cf(bg, ss, l.desc)
+				results[i], errs[i] = cfRetry(bg, ss, l.desc)
 				s.Event("%s converted ok=%v", t.Label, errs[i] == nil)
 			}))
 		}
